@@ -3,6 +3,39 @@ PID = 'C17'
 SPEC = dict(
     driver='c17_pubstring',
     extra=['ref/ref.c', 'simnet.c', 'ref/ref_b32.c'],
-    rule='tbd', bounds=dict(quick='tbd', thorough='tbd'), technique='tbd', level_text='tbd', level_note='tbd',
-    require_outcomes=[], assumptions=[],
+    rule='Exhaustive enumeration, no sampling. Part e: one case per (publication time, algorithm id, digest pattern): '
+         'KSI_PublicationData_toBase32 is compared with the reference string and KSI_PublicationData_fromBase32 must give back the time and imprint. '
+         'Part b: one case per (group length, byte length) for KSI_base32Encode, per byte length / per first byte value for KSI_base32Decode '
+         '(every pair of byte values between two fixed symbols), per length for KSI_crc32 (incl. every split point of the documented continuation). '
+         'Part m: one case per (base string, mutation family); inside the case EVERY mutation of the family is decoded by the library and judged: '
+         'sub = all 31 x nsym single-symbol substitutions, xp = all adjacent transpositions of different symbols (+ symbol<->dash swaps), '
+         'byte = all 255 other byte values at every character position, ins = all 255 byte values inserted at every position, '
+         'len = last 1..8 symbols removed / string cut by 1..10 characters / 1..8 consecutive symbols removed at every position / 1..8 copies of each of the 32 symbols appended, '
+         'alg = algorithm byte replaced by every id 0..255 and digest length 0..70 with a recomputed (correct) CRC. '
+         'Oracle per mutated string: the library rejects it, or returns exactly the (time, imprint) of the reference decoding of the string with all characters outside '
+         'A-Z 2-7 - = removed (lowercase letters: removed or read as uppercase). The reference decoder rejects CRC mismatch, unknown algorithm, byte length != 13 + digest length '
+         'and a whole surplus symbol. Distinct = distinct case name; non-trivial = at least one library result was compared with the reference.',
+    bounds=dict(
+        quick='e: times {0,1,2^31-1,2^32-1,2^32,2^63,2^64-1} and 2..255 x algorithm ids {0,1,2,4,5,7,8,9,10,11} x digests {all 00, all ff, counter} (7830 strings). '
+              'b: encode lengths 0..40 x 13 group lengths {0..9,13,40,100} x 4 patterns; decode of all reference encodings (lengths 0..40, groups 0..9, padded/unpadded, upper/lower case) '
+              'and of "M c1 c2 Z" for all 65536 byte pairs; crc lengths 0..40,63..65,255..257,1000 with all split points. '
+              'm: 90 base strings = every algorithm x times {1, 2^32-1, 2^64-1} x 3 digest patterns, all six mutation families in full (about 4.8 million mutated strings)',
+        thorough='as quick, with m over all 7830 base strings of part e (about 419 million mutated strings)'),
+    technique='exhaustive enumeration of all single-character mutations of valid publication strings on the compiled code (ASan+UBSan), judged by an independent reference encoder/decoder',
+    level_text='Every element of the stated finite space is executed on the real libksi object code under ASan/UBSan and compared with an independent reference '
+               '(RFC 4648 base-32, bitwise CRC-32, publication string layout); nothing is sampled. The property is a universally quantified statement about a pure string codec: '
+               'for a given valid string the set of single-symbol substitutions, adjacent transpositions, single-byte replacements/insertions and end-length changes is finite and is covered completely, '
+               'and the base strings cover every known algorithm (every digest length and every count of unused trailing bits 0,1,2,4), boundary times and digests that make every symbol value occur. '
+               'CRC-32 detects every error burst of up to 32 bits, so a correct implementation must reject all of these mutations except changes of the unused trailing bits.',
+    level_note='Trusted: the reference in harness/ref/ref.c (ref_crc32, ref_b32_encode, ref_pubstring) and harness/ref/ref_b32.c (decoder), cross-checked against each other and against the CRC check value; gcc sanitizers. '
+               'Times outside the listed values and digests other than the three patterns are not covered; multi-symbol corruptions are outside the property.',
+    require_outcomes=['e:roundtrip:ok', 'e:decode-reference-string:ok', 'b:enc:equal', 'b:dec:alphabet:equal', 'b:dec2:nonalphabet:rejected', 'b:crc:compared',
+                      'sub:ref-rej:lib-rej', 'sub:ref-ok:*', 'xp:ref-rej:lib-rej', 'xpdash:ref-ok:*', 'byte:ref-rej:lib-rej', 'ins:ref-rej:lib-rej', 'ins:ref-ok:*',
+                      'len-:ref-rej:lib-rej', 'len+:ref-rej:lib-rej', 'alg:same-length-known-id:checked', 'alg:unknown-id:checked', 'alg:known-id-other-length:checked'],
+    assumptions=['the reference CRC-32 / base-32 / publication-string code in harness/ref is a faithful transcription of IEEE 802.3 CRC-32, RFC 4648 base-32 and the KSI publication string layout',
+                 'the property text fixes the symbols and the grouping of the encoded string; trailing RFC 4648 "=" padding emitted by the library (with its separators) is accepted and only its count is checked',
+                 'lowercase letters are treated as case-insensitive forms of the alphabet: a string with a lowercase letter may be rejected, or decoded with the letter removed or read as uppercase',
+                 '"wrong total length" is read literally: a valid string followed by one whole surplus symbol has a wrong length and must be rejected even though the surplus bits are discarded',
+                 'when only unused trailing bits of the last symbol differ, the library may either return the identical data or reject'],
+    deadline=dict(quick=600, thorough=2400),
 )
